@@ -232,6 +232,27 @@ def misc_cases(_=None):
     f2.parse([ser.serialize(cfg)])
     if canon.canon(f2.value) != canon.canon(cfg):
       bad(f'FiddleFlagSerializer round trip of {name} differs')
+  # the short command-line form `--fdl.PATH=VALUE` is the override `PATH=VALUE`, verbatim, for every
+  # printed path (first components starting with any letter, indices, keys) and every value text
+  from fiddle._src.absl_flags import legacy_flags
+  from fiddle import printing
+  paths = set()
+  for name, fac in configs().items():
+    try:
+      paths |= set(printing.as_dict_flattened(fac()))
+    except Exception:   # pylint: disable=broad-except
+      pass
+  paths |= {'decoder.dim', 'layers[0].dim', 'dx', 'lr', 'f', 'fdl', 'l.d.f', "d['f']", 'x', 'seed', "options['mode']"}
+  for path in sorted(paths):
+    for value in ('1', "'d.f=l'", '[1, 2]', '-0.5', 'None'):
+      n += 1
+      for prefix, flag in (('--fdl.', '--fdl_set='), ('--fdl_tag.', '--fdl_tags_set=')):
+        got = legacy_flags.rewrite_fdl_args(['prog', f'{prefix}{path}={value}', '--other=1'])
+        want = ['prog', f'{flag}{path}={value}', '--other=1']
+        if got != want:
+          bad(f'short-form flag {prefix}{path}={value} was rewritten to {got[1]!r}, not to the override '
+              f'{want[1]!r} (the path/value text must be passed on verbatim)')
+          break
   # mutable literal arguments: every directive gets its own freshly evaluated objects, so an
   # in-place edit made through one flag (or one directive) is never seen by another
   n += 1
@@ -291,6 +312,7 @@ def run(tier='quick', seed=0, nproc=16):
            '%d new values and compared with a direct edit; directive sequences (config/set/fiddler, '
            'immutable fiddlers) of length <= %d vs strictly sequential application, parsed at once and '
            'incrementally; base-config rules; config_str and serializer round trips; call expressions; '
-           'mutable literal arguments are fresh per directive and per flag'
+           'mutable literal arguments are fresh per directive and per flag; short-form --fdl.PATH=VALUE '
+           'rewriting is verbatim for every printed path'
            % (len(NEW_VALUES), k),
       exhaustive=False, bound='10 configurations; directive sequences <= %d' % k)
